@@ -152,6 +152,7 @@ func c15History(c Case, res *Result) {
 	eng := twig.New()
 	var stores []*c15Store
 	var chain *twig.ChainLoader
+	parsed := map[int]*twig.Template{}
 
 	// the failing history is reported cut after the failing operation (predictions depend on the prefix only)
 	cut := func(k int) Case {
@@ -212,11 +213,23 @@ func c15History(c Case, res *Result) {
 			name, text := c15Name(geti("n")), c15Text(geti("src"))
 			how, _ := op["how"].(string)
 			res.Hist["register:"+how]++
+			if rtag, _ := op["rtag"].(string); rtag != "" {
+				res.Hist["register-source:"+rtag]++
+			}
 			var err error
 			switch how {
 			case "template":
-				var t *twig.Template
-				if t, err = eng.ParseTemplate(text); err == nil {
+				// the same *Template value is registered again whenever the same source id comes back
+				// (under this or another name): an identity shortcut must not skip the registration
+				t := parsed[geti("src")]
+				if t == nil {
+					if t, err = eng.ParseTemplate(text); err == nil {
+						parsed[geti("src")] = t
+					}
+				} else {
+					res.Hist["register:template-same-pointer"]++
+				}
+				if err == nil {
 					eng.RegisterTemplate(name, t)
 				}
 			case "compiled":
